@@ -27,7 +27,7 @@ Ltac des_erase x :=
   let d := fresh "d" in let p := fresh "p" in let mt := fresh "mt" in
   let tags := fresh "tags" in let red := fresh "red" in
   destruct x as [i k|i w c|i c s|i m h|i k cs|i m d cs|i p d mt c];
-  [ | destruct w as [ | | | | | | | |tags red| | | | | | | | | | | | ]; [ | | | | | | | |destruct red| | | | | | | | | | | | ] | | | | | ].
+  [ | destruct w as [ | | | | | | | |tags red| | | | | | | | | | | | | ]; [ | | | | | | | |destruct red| | | | | | | | | | | | | ] | | | | | ].
 
 (* ---------- node-local facts ---------- *)
 Definition leaf_of (e : err) : option leafk :=
@@ -49,7 +49,7 @@ Lemma comparable_leaf r :
   negb (nocmp_wrap r) && match leaf_of r with Some (LUser ULNoCmp _ _ _) => false | _ => true end.
 Proof.
   destruct r as [i k|i w c|i c s|i m h|i k cs|i m d cs|i p d mt c]; try reflexivity.
-  destruct w as [| | | | | | | | | | | | | | | | | | | |u m xs]; try reflexivity.
+  destruct w as [| | | | | | | | | | | | | | | | | | | | |u m xs]; try reflexivity.
   destruct u; reflexivity.
 Qed.
 
@@ -123,7 +123,7 @@ Proof.
   intro H.
   destruct r as [j k|j w c|j c s|j m h|j k cs|j m d cs|j p d mt c].
   - destruct k as [| | | | | | | | | | |u m t xs]; try (vm_compute; reflexivity); try (destruct H).
-  - destruct w as [| | | | | | | | | | | | | | | | | | | |u m xs]; try (vm_compute; reflexivity).
+  - destruct w as [| | | | | | | | | | | | | | | | | | | | |u m xs]; try (vm_compute; reflexivity).
   - vm_compute; reflexivity.
   - vm_compute; reflexivity.
   - destruct k; vm_compute; reflexivity.
@@ -136,8 +136,8 @@ Ltac des_kind x :=
   let w := fresh "w" in let v := fresh "v" in
   destruct x as [i k|i w ?|i ? ?|i ? ?|i ? ?|i ? ? ?|i ? ? ? ?];
   [destruct k as [| | | | | | | | | | |u ? ? ?]; [ | | | | | | | | | | |destruct u]
-  |destruct w as [| | | | | | | | | | | | | | | | | | | |v ? ?];
-   [ | | | | | | | | | | | | | | | | | | | |destruct v] | | | | | ].
+  |destruct w as [| | | | | | | | | | | | | | | | | | | | |v ? ?];
+   [ | | | | | | | | | | | | | | | | | | | | |destruct v] | | | | | ].
 
 Lemma go_eq_nid c r :
   (value_kind c = false -> node_oid c <> node_oid r) -> go_eq c r = go_eq_val c r.
